@@ -235,7 +235,7 @@ Section WithCfg.
   Lemma m_segs_ff root q : forall ns, filter_free q = true -> (1 <= max_depth cfg)%nat -> bounded (max_depth cfg) ns ->
     m_segs cfg root q ns = Ok (s_segs rg rxf root q ns).
   Proof.
-    induction q as [|sg q IH]; intros ns Hff H1 Hb; cbn [m_segs s_segs]; [reflexivity|].
+    unfold m_segs, s_segs. induction q as [|sg q IH]; intros ns Hff H1 Hb; cbn [run_segs run_segs_s]; [reflexivity|].
     cbn [filter_free forallb] in Hff. apply andb_true_iff in Hff as [Ha Hq].
     destruct (m_seg_ff root sg ns Ha H1 Hb) as [-> Hb']. cbn [bind]. apply IH; assumption.
   Qed.
